@@ -117,6 +117,8 @@ var Snippets = []Snippet{
 	{[]string{"E"}, "func e${N}() int {\n\to := ${E}Opt{On: true}\n\t_ = o\n\treturn ${E}Bar()\n}"},
 	{[]string{"F"}, "func f${N}() int {\n\treturn ${F}Baz()\n}"},
 	{[]string{"G"}, "func g${N}() int {\n\tk := ${G}Key{N: 1}\n\treturn ${G}With(k.N)\n}"},
+	{[]string{"D"}, "type dd${N} ${D}DotT\n\ntype da${N} = ${D}DotT"},
+	{[]string{"A"}, "type ad${N} ${A}T\n\ntype aa${N} = ${A}G[int]"},
 	{[]string{"H"}, "func h${N}() int {\n\tv := ${H}RT{R: ${H}Root()}\n\treturn v.R\n}"},
 	{[]string{"A", "B"}, "func ab${N}() int {\n\treturn ${A}F(${B}F2())\n}"},
 	{[]string{"A", "C"}, "var ac${N} = map[${C}K]${A}T{${C}One: {X: 1}}"},
